@@ -99,26 +99,26 @@ Theorem internal_implies_in_zone_partial : forall b l a, length b = 20%nat ->
 Proof. exact internal_implies_in_zone_partial_lemma. Qed.
 Print Assumptions internal_implies_in_zone_partial.
 
-(* >>> the three theorems below are about the UNREPAIRED BytesToAddress: delete them when
-   Model.C16.fix_applied is set to true (they stop compiling, as they must) <<< *)
+(* The three theorems below are about the UNREPAIRED BytesToAddress (bytes_to_address_gen false, the code before
+   fix commit 0cf8b5d8): kept as the record of why finding F10 mattered. *)
 Theorem internal_implies_in_zone_refuted :
-  (exists b a, length b = 21%nat /\ bytes_to_address b [0; 0] = Internal a
+  (exists b a, length b = 21%nat /\ bytes_to_address_gen false b [0; 0] = Internal a
                /\ in_zone a [0; 0] = false /\ in_zone a [1; 0] = true)
-  /\ (exists b a, length b = 19%nat /\ bytes_to_address b [1; 0] = Internal a
+  /\ (exists b a, length b = 19%nat /\ bytes_to_address_gen false b [1; 0] = Internal a
                /\ in_zone a [1; 0] = false /\ in_zone a [0; 0] = true).
 Proof. exact internal_implies_in_zone_refuted_lemma. Qed.
 Print Assumptions internal_implies_in_zone_refuted.
 
 Theorem in_zone_implies_internal_refuted :
-  exists b a, length b = 21%nat /\ bytes_to_address b [0; 0] = External a /\ in_zone a [0; 0] = true.
+  exists b a, length b = 21%nat /\ bytes_to_address_gen false b [0; 0] = External a /\ in_zone a [0; 0] = true.
 Proof. exact in_zone_implies_internal_refuted_lemma. Qed.
 Print Assumptions in_zone_implies_internal_refuted.
 
 Theorem big_to_address_agrees_refuted :
-  exists a, wf20 a /\ big_to_address a [0; 0] = External a /\ bytes_to_address a [0; 0] = Internal a.
+  exists a, wf20 a /\ bytes_to_address_gen false (strip_zeros a) [0; 0] = External a /\ bytes_to_address_gen false a [0; 0] = Internal a.
 Proof. exact big_to_address_refuted_lemma. Qed.
 Print Assumptions big_to_address_agrees_refuted.
-(* >>> end of the theorems to delete after the fix <<< *)
+
 
 (* The repaired constructor (design/C16.fix.diff: classify the 20 stored bytes) satisfies the full
    statement for inputs of EVERY length. *)
